@@ -52,3 +52,12 @@ def run(chk, repo, tier):
     refcmp.check(chk, 'R02.6', c19.GRP, gm['__init__'], c19.REF_INIT,
                  key='Group.__init__', what='a group names itself by its '
                                             'canonical name')
+    # comparison numbers used by the patterns' constraints
+    from . import c08 as _c08
+    from .. import grammar_ir as _G, reviewed as _rv
+    _c08.ops_table(chk, repo, _G.load(repo)[1], R2='R02.6', R3='R02.6')
+    for q in ('ConstraintNumber.__init__', 'ConstraintNumber.__call__'):
+        _rv.check(chk, 'R02.6', repo, 'pgradd/RDkitWrapper/MolQuery.py', q,
+                  '%s is unchanged from its reviewed reference' % q)
+    R.message_concat_types(chk, repo, 'R02.2', [R.SCH, 'pgradd/Error.py'])
+
